@@ -18,7 +18,7 @@ MIRI = {"kind": "miri", "miriflags": "", "miri_profile": "release", "tiers": ["q
 ASAN = {"kind": "asan"}
 
 
-def codec_engines(miri_shards_quick=8, miri_shards_thorough=16, asan_tiers=("quick", "thorough"), miri_tiers=("quick", "thorough")):
+def codec_engines(miri_shards_quick=16, miri_shards_thorough=16, asan_tiers=("quick", "thorough"), miri_tiers=("quick", "thorough")):
     return [
         eng("native-release", "chk-codec", NATIVE_REL, params={"all": {"scale": 8}}),
         eng("native-debugassert", "chk-codec", NATIVE_CHK, params={"all": {"scale": 4}}),
